@@ -610,6 +610,19 @@ func (g *GuardSem) GuardLoop(f *ssa.Function, ifi *ssa.If) *LoopInfo {
 	for _, a := range GAll {
 		li.Runs[a] = g.Run(f, GSubject{Param: param, Loop: ifi}, a)
 	}
+	// only what happens inside the loop body counts (a panic before the loop, e.g. the length check, does not)
+	body := ifi.Block().Succs[0]
+	for _, a := range GAll {
+		var in []ssa.Instruction
+		for _, p := range li.Runs[a].Panics {
+			if body == p.Block() || body.Dominates(p.Block()) {
+				in = append(in, p)
+			}
+		}
+		r := *li.Runs[a]
+		r.Panics = in
+		li.Runs[a] = &r
+	}
 	z := li.Runs[GZero]
 	for _, a := range GAll {
 		if len(li.Runs[a].Panics) != len(z.Panics) || li.Runs[a].Continued != z.Continued {
